@@ -15,7 +15,7 @@ from ..rules import ncallee, norm
 META = {
     "level": "other",
     "technique": "forward value-flow (computed digest → equality → branch/return) on MIR + unused-stored-checksum rule + synthetic-data-on-error rule + field/status pairing on typed HIR",
-    "claim": "Decides that each integrity mechanism named in the property is actually wired: computed ⇒ compared ⇒ can fail, on every read/verify function; no zero-filled substitute on decode failure; all six v4 digests verified with the matching table and reported; weak-signature sign/verify share the hash-range function; the PKCS#1 verifier retains its eight comparisons. Does not flip bytes at every offset. Also: per-sector validation is guarded only by loop-invariant presence; the signature area is zeroed exactly on overlap (all orderings of the four end points); protected bytes are read at absolute positions (offset frames); signature zero-padding matches the byte order. Wave 5: no path from a checksum computation to an Ok return avoids its comparison; the two (attributes) layout sizes are one formula (16 flag sets x 18 counts); update_attributes takes checksums from the data written, not from the stale view. Wave 6: the guards of the SFILE_VERIFY_* sections read no local assigned in the function (requested verifications are independent); rewritten internal files get fresh attributes. Wave 7: the checksum table is expected from the smallest sector count the builder writes it for; FLAG_SECTOR_CRC implies a written checksum (shared with C01); V4 digest slots are filled from their own table's writer, which digests the buffer it writes; every single-unit reader checks the trailer; RSA verifiers require s < n; an unparsable (signature) is invalid, not absent.",
+    "claim": "Decides that each integrity mechanism named in the property is actually wired: computed ⇒ compared ⇒ can fail, on every read/verify function; no zero-filled substitute on decode failure; all six v4 digests verified with the matching table and reported; weak-signature sign/verify share the hash-range function; the PKCS#1 verifier retains its eight comparisons. Does not flip bytes at every offset. Also: per-sector validation is guarded only by loop-invariant presence; the signature area is zeroed exactly on overlap (all orderings of the four end points); protected bytes are read at absolute positions (offset frames); signature zero-padding matches the byte order. Wave 5: no path from a checksum computation to an Ok return avoids its comparison; the two (attributes) layout sizes are one formula (16 flag sets x 18 counts); update_attributes takes checksums from the data written, not from the stale view. Wave 6: the guards of the SFILE_VERIFY_* sections read no local assigned in the function (requested verifications are independent); rewritten internal files get fresh attributes. Wave 7: the checksum table is expected from the smallest sector count the builder writes it for; FLAG_SECTOR_CRC implies a written checksum (shared with C01); V4 digest slots are filled from their own table's writer, which digests the buffer it writes; every single-unit reader checks the trailer; RSA verifiers require s < n; an unparsable (signature) is invalid, not absent. Wave 8: (no new rule; two wave-8 changes were reported at first contact).",
     "note": "Trusted: adler2/crc32fast/md5 crates; that an equality on the digest bytes is the right test. The flow analysis is intra-procedural plus closures; adapters are followed liberally (a digest that reaches no equality at all is what the rule reports).",
     "assumptions": ["checksums are only meaningful if compared with ==/!= (or a PartialEq impl) on the same path that returns the data"],
     "explanation": "read_file, read_sectored_file, validate_v4_md5_checksums (+closure), the storm-ffi per-file verifier, the signature routines and the PKCS#1 padding verifier.",
